@@ -20,11 +20,15 @@ ProgY == <<Ds("y", "f64", <<3>>, <<>>, <<>>), Wr("y", "ext"), At("y", "a", "s40"
 ProgG == <<Gr("g"), At("g", "a", "i32"), At("g", "b", "s150"), At("g", "c", "s150"),
            [op |-> "mkds", pc |-> <<"g", "m">>, dt |-> "i16", dims |-> <<2>>, chunk |-> <<>>, max |-> <<>>, flt |-> ""],
            [op |-> "write", pc |-> <<"g", "m">>, data |-> "neg"]>>
+\* V: variable-length strings - its elements go to global heap collections, one of them larger than a collection
+ProgV == <<Ds("v", "vls", <<3>>, <<>>, <<>>), Wr("v", "ext"), At("v", "a", "i32"), Wr("v", "seq")>>
 ShortX == SubSeq(ProgX, 1, 6)
 ShortY == SubSeq(ProgY, 1, 4)
 ShortG == SubSeq(ProgG, 1, 4)
 
 PXY  == [o \in {"x", "y"} |-> IF o = "x" THEN ProgX ELSE ProgY]
+PVY  == [o \in {"v", "y"} |-> IF o = "v" THEN ProgV ELSE ProgY]
+PVX  == [o \in {"v", "x"} |-> IF o = "v" THEN ProgV ELSE ShortX]
 PXG  == [o \in {"x", "g"} |-> IF o = "x" THEN ProgX ELSE ProgG]
 PXYG == [o \in {"x", "y", "g"} |-> IF o = "x" THEN SubSeq(ProgX, 1, 4) ELSE IF o = "y" THEN ShortY ELSE SubSeq(ProgG, 1, 3)]
 PXYGlong == [o \in {"x", "y", "g"} |-> IF o = "x" THEN ShortX ELSE IF o = "y" THEN ShortY ELSE ShortG]
